@@ -1,10 +1,17 @@
 ; ---- govc base prelude: sorts shared by every verification condition ----
-(declare-datatype Ref ((null) (obj (oid Int)) (fld (fbase Ref) (fidx Int)) (idx (ibase Ref) (iidx (_ BitVec 64)))))
-(declare-fun rid (Ref) Int)
-(assert (= (rid null) 0))
-(assert (forall ((n Int)) (! (= (rid (obj n)) n) :pattern ((obj n)))))
-(assert (forall ((r Ref) (i Int)) (! (= (rid (fld r i)) (rid r)) :pattern ((fld r i)))))
-(assert (forall ((r Ref) (i (_ BitVec 64))) (! (= (rid (idx r i)) (rid r)) :pattern ((idx r i)))))
+; References: allocation id of the object + access path inside it (fields of embedded structs,
+; elements of slice backing arrays). rid is a plain selector; injectivity of addresses comes
+; from datatype injectivity, so no quantified axiom is needed.
+(declare-datatype Path ((pnil) (pfld (pfb Path) (pfi Int)) (pidx (pib Path) (pii (_ BitVec 64)))))
+(declare-datatype Ref ((mkref (rid Int) (rpath Path))))
+(define-fun null () Ref (mkref 0 pnil))
+(define-fun obj ((n Int)) Ref (mkref n pnil))
+(define-fun fld ((r Ref) (i Int)) Ref (mkref (rid r) (pfld (rpath r) i)))
+(define-fun idx ((r Ref) (i (_ BitVec 64))) Ref (mkref (rid r) (pidx (rpath r) i)))
+(define-fun isobj ((r Ref)) Bool ((_ is pnil) (rpath r)))
+(define-fun isidx ((r Ref)) Bool ((_ is pidx) (rpath r)))
+(define-fun ibase ((r Ref)) Ref (mkref (rid r) (pib (rpath r))))
+(define-fun iidx ((r Ref)) (_ BitVec 64) (pii (rpath r)))
 
 (declare-sort Str 0)
 (declare-const sempty Str)
